@@ -521,6 +521,9 @@ def gen_input(rng, spec, depth=0):
                     if name == "multiple_of" and isinstance(cd[name], (int, float)) and not isinstance(v, (str, bytes)):
                         try:
                             v = cd[name] * rng.randint(-3, 6) + rng.choice([0, 0, 0, 1, 0.5])
+                            if oname == "int" and rng.random() < 0.3:
+                                # beyond 2 ** 53 an int is not exactly representable as a float
+                                v = rng.choice([10 ** 50 - 1, 10 ** 20 + 1, 2 ** 60 + 1, -(10 ** 30) - 3, 10 ** 50])
                         except Exception:
                             pass
                     return lambda v=v: v
